@@ -526,10 +526,6 @@ class Gen:
         nargs = r.range(lo, hi + 2) if r.chance(3, 4) else r.range(max(0, lo - 1), hi + 3)
         args = [r.range(1, 99) for _ in range(min(nargs, hi))]
         extra = nargs - len(args)
-        if extra > 0 and tail in ("keys", "named") and extra % 2 == 1:
-            # an odd number of keyword arguments is not rejected by janet: make_struct_n pairs the dangling key with whatever
-            # is in the next stack slot (nil after a normal call, stale data after a tail call) - kept out of generation
-            extra += 1
         if extra > 0:
             if tail in ("keys", "named"):
                 pool = [Kw("k"), r.range(100, 199), Kw("j"), r.range(200, 299), Kw("c"), 7]
